@@ -11,8 +11,10 @@ import (
 	"bytes"
 	"fmt"
 	"math"
+	"runtime"
 	"runtime/debug"
 	"strings"
+	"sync"
 
 	"golang.org/x/net/internal/zzverif/vx"
 )
@@ -170,6 +172,15 @@ func c12GenSeqs(canOpen []uint32, seed []c12Op, ops []c12Op, n int, yield func([
 	return rec(base, n)
 }
 
+// c12Ballast makes garbage-collection cycles rare: the histories allocate many
+// short-lived small objects while the live heap is a few MB, so without it the
+// runtime spends most of its time starting GC cycles and re-initialising spans.
+// The ballast is never touched (not resident).
+func c12Ballast() func() {
+	b := make([]byte, 32<<20)
+	return func() { runtime.KeepAlive(b) }
+}
+
 // ---------------------------------------------------------------------------
 // real scheduler + reference model
 
@@ -215,6 +226,7 @@ type c12Frame struct {
 
 type c12Stream struct {
 	id    uint32
+	used  bool
 	state uint8 // 0 idle, 1 open, 2 closed
 	real  *stream
 	win   int32       // model of the stream send window
@@ -224,43 +236,86 @@ type c12Stream struct {
 	pushed, delivered, dropped int
 }
 
+const c12MaxID = 7
+
 // c12World is a real scheduler with its streams and flow-control windows plus
-// the reference model.
+// the reference model. Worlds are recycled through c12WorldPool to keep the
+// allocation rate low; everything a history can observe is reset in
+// c12NewWorld, and the scheduler under test is always fresh.
 type c12World struct {
-	id     string // "C12" or "C13": prefix of signatures
-	sched  string
-	fam    string
-	env    c12Env
-	ws     WriteScheduler
-	sc     *serverConn
-	byID   map[uint32]*c12Stream
-	order  []uint32    // ids in first-use order (deterministic iteration)
-	ctl    []*c12Frame // model: control-class frames (stream == nil) queued, push order
-	conn   int32       // model of the connection send window
-	seq    int
-	pops   int  // successful pops
-	dropAt bool // some CloseStream discarded queued frames
-	quiet  bool // do not report C12-oracle divergences (used by C13), only stop
-	failed bool
+	id      string // "C12" or "C13": prefix of signatures
+	sched   string
+	fam     string
+	env     c12Env
+	ws      WriteScheduler
+	sc      *serverConn
+	streams [c12MaxID + 1]c12Stream // index = stream id
+	ctl     []*c12Frame             // model: control-class frames (stream == nil) queued, push order
+	conn    int32                   // model of the connection send window
+	seq     int
+	pops    int  // successful pops
+	dropAt  bool // some CloseStream discarded queued frames
+	quiet   bool // do not report C12-oracle divergences (used by C13), only stop
+	failed  bool
+
+	// recycled storage
+	scStore serverConn
+	reals   [c12MaxID + 1]stream
+	slab    []*c12Slot
+	nslot   int
 }
 
+// c12Slot is the storage of one pushed frame.
+type c12Slot struct {
+	f    c12Frame
+	done chan error
+	wh   writeResHeaders
+	wd   writeData
+	buf  []byte
+}
+
+var c12WorldPool = sync.Pool{New: func() any { return new(c12World) }}
+
 func c12NewWorld(id, sched string, env c12Env) *c12World {
-	w := &c12World{id: id, sched: sched, fam: c12Family(sched), env: env, byID: map[uint32]*c12Stream{}}
+	w := c12WorldPool.Get().(*c12World)
+	w.id, w.sched, w.fam, w.env = id, sched, c12Family(sched), env
 	w.ws = c12NewSched(sched)
-	w.sc = &serverConn{maxFrameSize: env.MaxFrame}
+	w.scStore = serverConn{maxFrameSize: env.MaxFrame}
+	w.sc = &w.scStore
 	w.sc.flow.add(env.ConnWin)
+	for i := range w.streams {
+		q := w.streams[i].q
+		clear(q[:cap(q)])
+		w.streams[i] = c12Stream{id: uint32(i), q: q[:0]}
+	}
+	clear(w.ctl[:cap(w.ctl)])
+	w.ctl = w.ctl[:0]
 	w.conn = env.ConnWin
+	w.seq, w.pops, w.dropAt, w.quiet, w.failed, w.nslot = 0, 0, false, false, false, 0
 	return w
 }
 
+// release returns w to the pool; w must not be used afterwards.
+func (w *c12World) release() {
+	w.ws = nil
+	c12WorldPool.Put(w)
+}
+
 func (w *c12World) stream(id uint32) *c12Stream {
-	s := w.byID[id]
-	if s == nil {
-		s = &c12Stream{id: id}
-		w.byID[id] = s
-		w.order = append(w.order, id)
-	}
+	s := &w.streams[id]
+	s.used = true
 	return s
+}
+
+// slot returns fresh storage for one frame.
+func (w *c12World) slot() *c12Slot {
+	if w.nslot == len(w.slab) {
+		w.slab = append(w.slab, &c12Slot{done: make(chan error, 1)})
+	}
+	sl := w.slab[w.nslot]
+	w.nslot++
+	sl.f = c12Frame{}
+	return sl
 }
 
 func (w *c12World) failf(vw *vx.W, clause, format string, a ...any) {
@@ -288,8 +343,8 @@ func (w *c12World) diagnose() string {
 	if !ok {
 		return ""
 	}
-	for _, id := range w.order {
-		if s := w.byID[id]; s.state == 1 && ws.nodes[id] == nil {
+	for id := range w.streams {
+		if s := &w.streams[id]; s.state == 1 && ws.nodes[uint32(id)] == nil {
 			return "open-stream-missing-from-priority-tree"
 		}
 	}
@@ -347,7 +402,8 @@ func (w *c12World) apply(vw *vx.W, op c12Op) (info c12PopInfo, cont bool) {
 	switch op.K {
 	case c12Open:
 		s := w.stream(op.S)
-		s.real = &stream{id: op.S, sc: w.sc}
+		w.reals[op.S] = stream{id: op.S, sc: w.sc}
+		s.real = &w.reals[op.S]
 		s.real.flow.conn = &w.sc.flow
 		s.real.flow.add(w.env.StreamWin)
 		s.win = w.env.StreamWin
@@ -363,39 +419,50 @@ func (w *c12World) apply(vw *vx.W, op c12Op) (info c12PopInfo, cont bool) {
 			vw.Outcome("close:drops-queued")
 		}
 		s.dropped += len(s.q)
-		s.q = nil
+		s.q = s.q[:0]
 	case c12Adjust:
 		w.stream(op.S).prio = op.P // C13 refines this (buffering); C12 does not read it
 		w.ws.AdjustStream(op.S, op.P.param())
 	case c12Headers:
 		s := w.stream(op.S)
 		w.seq++
-		f := &c12Frame{kind: c12Headers, sid: op.S, seq: w.seq, done: make(chan error, 1)}
-		f.write = &writeResHeaders{streamID: op.S, httpResCode: 200 + w.seq}
+		sl := w.slot()
+		f := &sl.f
+		*f = c12Frame{kind: c12Headers, sid: op.S, seq: w.seq, done: sl.done}
+		sl.wh = writeResHeaders{streamID: op.S, httpResCode: 200 + w.seq}
+		f.write = &sl.wh
 		s.q = append(s.q, f)
 		s.pushed++
 		w.ws.Push(FrameWriteRequest{write: f.write, stream: s.real, done: f.done})
 	case c12Data:
 		s := w.stream(op.S)
 		w.seq++
-		f := &c12Frame{kind: c12Data, sid: op.S, seq: w.seq, end: op.End, done: make(chan error, 1)}
-		f.data = make([]byte, op.N)
+		sl := w.slot()
+		f := &sl.f
+		*f = c12Frame{kind: c12Data, sid: op.S, seq: w.seq, end: op.End, done: sl.done}
+		if cap(sl.buf) < int(op.N) {
+			sl.buf = make([]byte, op.N)
+		}
+		f.data = sl.buf[:op.N:op.N]
 		for i := range f.data {
 			f.data[i] = c12DataByte(w.seq, i)
 		}
-		f.write = &writeData{streamID: op.S, p: f.data, endStream: op.End}
+		sl.wd = writeData{streamID: op.S, p: f.data, endStream: op.End}
+		f.write = &sl.wd
 		s.q = append(s.q, f)
 		s.pushed++
 		w.ws.Push(FrameWriteRequest{write: f.write, stream: s.real, done: f.done})
 	case c12RST:
 		w.seq++
-		f := &c12Frame{kind: c12RST, sid: op.S, seq: w.seq}
+		f := &w.slot().f
+		*f = c12Frame{kind: c12RST, sid: op.S, seq: w.seq}
 		f.write = StreamError{StreamID: op.S, Code: ErrCode(1000 + w.seq)}
 		w.ctl = append(w.ctl, f)
 		w.ws.Push(FrameWriteRequest{write: f.write})
 	case c12Ctl:
 		w.seq++
-		f := &c12Frame{kind: c12Ctl, seq: w.seq}
+		f := &w.slot().f
+		*f = c12Frame{kind: c12Ctl, seq: w.seq}
 		f.write = writePing{data: [8]byte{byte(w.seq), 0xc1}}
 		w.ctl = append(w.ctl, f)
 		w.ws.Push(FrameWriteRequest{write: f.write})
@@ -442,8 +509,8 @@ func (w *c12World) pop(vw *vx.W) (info c12PopInfo) {
 			w.failf(vw, "pop-false-while-sendable/control", "Pop reported no frame while %d control frame(s) are queued", len(w.ctl))
 			return
 		}
-		for _, id := range w.order {
-			s := w.byID[id]
+		for id := range w.streams {
+			s := &w.streams[id]
 			if w.sendable(s) {
 				h := s.q[0]
 				kind := h.kind.String()
@@ -455,8 +522,8 @@ func (w *c12World) pop(vw *vx.W) (info c12PopInfo) {
 			}
 		}
 		queued := 0
-		for _, id := range w.order {
-			queued += len(w.byID[id].q)
+		for id := range w.streams {
+			queued += len(w.streams[id].q)
 		}
 		if queued > 0 {
 			vw.Outcome("pop:none(flow-blocked)")
@@ -504,8 +571,8 @@ func (w *c12World) pop(vw *vx.W) (info c12PopInfo) {
 		return
 	}
 	var s *c12Stream
-	for _, id := range w.order {
-		if x := w.byID[id]; x.real == wr.stream {
+	for id := range w.streams {
+		if x := &w.streams[id]; x.used && x.real == wr.stream {
 			s = x
 		}
 	}
@@ -615,8 +682,8 @@ func (w *c12World) checkWindows(vw *vx.W, after string) {
 		w.failf(vw, "window-not-debited-exactly/"+after, "after a Pop of %s the connection window is %d, model %d", after, w.sc.flow.n, w.conn)
 		return
 	}
-	for _, id := range w.order {
-		s := w.byID[id]
+	for id := range w.streams {
+		s := &w.streams[id]
 		if s.real != nil && s.real.flow.n != s.win {
 			w.failf(vw, "window-not-debited-exactly/"+after, "after a Pop of %s the window of stream %d is %d, model %d", after, id, s.real.flow.n, s.win)
 			return
@@ -632,8 +699,8 @@ func (w *c12World) drain(vw *vx.W) {
 	w.sc.flow.add(big)
 	w.conn += big
 	left := len(w.ctl)
-	for _, id := range w.order {
-		s := w.byID[id]
+	for id := range w.streams {
+		s := &w.streams[id]
 		if s.state == 1 {
 			s.real.flow.add(big)
 			s.win += big
@@ -655,8 +722,8 @@ func (w *c12World) drain(vw *vx.W) {
 	if w.failed {
 		return
 	}
-	for _, id := range w.order {
-		s := w.byID[id]
+	for id := range w.streams {
+		s := &w.streams[id]
 		if s.pushed != s.delivered+s.dropped+len(s.q) || len(s.q) != 0 {
 			// cannot happen: the Pop oracle above is stricter; a harness bug.
 			panic(fmt.Sprintf("c12 harness: conservation bookkeeping broken on stream %d: pushed %d delivered %d dropped %d queued %d", id, s.pushed, s.delivered, s.dropped, len(s.q)))
